@@ -132,11 +132,146 @@ fn run_word<L: LowerCaser>(h: &Hyphenator, lc: &L, w: &str) -> WordRun {
     WordRun { indices, scores, matched, hyphenated }
 }
 
+/// Compare one query three ways. `m` = the driver's per-word record.
+#[allow(clippy::too_many_arguments)]
+fn check_word(out: &mut CaseOutcome, w: &str, run: &WordRun, m: &str, in_quantifier: bool, hi_digit: bool, desc: &str, pfx: &str, b_flag: bool) {
+        let f: Vec<&str> = m.split(':').collect();
+        assert!(f.len() >= 5, "per-word reply malformed: {m}");
+        let (m_scores, m_idx, s_idx, verdict, is_exc) = (f[0], f[1], f[2], f[3], f[4] == "x");
+        if run.matched > 0 {
+            out.nontrivial = true;
+        }
+        out.tag(match run.matched {
+            0 => "matched:0",
+            1 => "matched:1",
+            2..=4 => "matched:2-4",
+            _ => "matched:5+",
+        });
+        let n = w.chars().count();
+        out.tag(match n {
+            0..=1 => "word:len<=1",
+            2..=5 => "word:len2-5",
+            6..=16 => "word:len6-16",
+            17..=32 => "word:len17-32",
+            _ => "word:len33+",
+        });
+        if w.chars().any(|c| c.is_uppercase()) && w.chars().any(|c| c.is_lowercase()) {
+            out.tag("word:mixed-case");
+        } else if w.chars().any(|c| c.is_uppercase()) {
+            out.tag("word:upper-case");
+        }
+        if !w.is_ascii() {
+            out.tag("word:multi-byte");
+        }
+        if verdict == "-" {
+            out.tag("word:non-letter(outside-quantifier)");
+        }
+        if is_exc {
+            out.tag(if hi_digit { "word:listed-exception+pattern-digit-7..9" } else { "word:listed-exception" });
+        }
+        let sig_exc = if b_flag { "C13-b: a pattern .w. loaded after the exception for w replaces it" } else { "listed exception not returned as listed" };
+        let ctx = |what: &str| format!("{what}
+word: {w}
+{desc}");
+        // panics
+        let idx = match &run.indices {
+            Ok(v) => v,
+            Err(e) => {
+                out.fail(Kind::ImplPanic, &format!("{pfx}indices"), format!("panic {}", strip_msg(e)), ctx(&format!("calculate_indices panicked: {e}")));
+                if m_idx != "P" {
+                    out.fail(Kind::ImplVsModel, &format!("{pfx}indices"), "impl panics, model does not", ctx(&format!("model indices: {m_idx}")));
+                }
+                return;
+            }
+        };
+        if m_idx == "P" {
+            out.fail(Kind::ImplVsModel, &format!("{pfx}indices"), "model panics, impl does not", ctx(&format!("impl indices: {}", dots(idx))));
+            return;
+        }
+        if !idx.is_empty() {
+            out.tag("result:some-hyphen");
+        } else {
+            out.tag("result:no-hyphen");
+        }
+        // I vs M: indices and the full aggregate score vector
+        let i_idx = dots(idx);
+        if i_idx != m_idx {
+            let sig = if is_exc { sig_exc.to_string() } else { "indices differ".to_string() };
+            out.fail(Kind::ImplVsModel, &format!("{pfx}indices"), sig, ctx(&format!("impl indices: {i_idx}\nmodel indices: {m_idx}\nmodel scores: {m_scores}")));
+        }
+        match &run.scores {
+            Ok(s) => {
+                if let Some(mx) = s.iter().max() {
+                    out.tag(format!("score-max:{}", mx));
+                }
+                if dots(s) != m_scores {
+                    out.fail(Kind::ImplVsModel, &format!("{pfx}scores"), "aggregate scores differ", ctx(&format!("impl scores: {}\nmodel scores: {m_scores}", dots(s))));
+                }
+                let odd: Vec<usize> = s.iter().enumerate().filter(|(_, x)| *x % 2 != 0).map(|(i, _)| i).collect();
+                if &odd != idx {
+                    out.fail(Kind::ImplVsModel, &format!("{pfx}scores"), "calculate_explanation and calculate_indices disagree", ctx(&format!("scores: {}\nindices: {i_idx}", dots(s))));
+                }
+            }
+            Err(e) => out.fail(Kind::ImplPanic, &format!("{pfx}scores"), format!("panic {}", strip_msg(e)), ctx(&format!("calculate_explanation panicked: {e}"))),
+        }
+        // glue: hypthenate inserts `-` exactly at the indices
+        match &run.hyphenated {
+            Ok(hs) => {
+                let mut want = String::new();
+                for (i, c) in w.chars().enumerate() {
+                    if idx.contains(&i) {
+                        want.push('-');
+                    }
+                    want.push(c);
+                }
+                if *hs != want {
+                    out.fail(Kind::ImplVsModel, &format!("{pfx}hypthenate"), "hypthenate string disagrees with calculate_indices", ctx(&format!("hypthenate: {hs}\nfrom indices: {want}")));
+                }
+            }
+            Err(e) => out.fail(Kind::ImplPanic, &format!("{pfx}hypthenate"), format!("panic {}", strip_msg(e)), ctx(&format!("hypthenate panicked: {e}"))),
+        }
+        // I vs S and M vs S (inside the quantifier)
+        if in_quantifier && verdict != "-" {
+            // the two other public views of the same positions: the string `hypthenate` builds
+            // (a word of letters contains no `-` of its own) and the odd entries of
+            // `calculate_explanation().aggregate_scores`
+            if let Ok(hs) = &run.hyphenated {
+                let mut pos = vec![];
+                let mut i = 0usize;
+                for c in hs.chars() {
+                    if c == '-' {
+                        pos.push(i);
+                    } else {
+                        i += 1;
+                    }
+                }
+                let letters: String = hs.chars().filter(|c| *c != '-').collect();
+                if dots(&pos) != s_idx || letters != *w {
+                    out.fail(Kind::ImplVsSpec, &format!("{pfx}hypthenate"), "hypthenate: hyphens not exactly at the specified positions", ctx(&format!("hypthenate: {hs}\nspec indices: {s_idx}")));
+                }
+            }
+            if let Ok(sc) = &run.scores {
+                let odd: Vec<usize> = sc.iter().enumerate().filter(|(_, x)| *x % 2 != 0).map(|(i, _)| i).collect();
+                if dots(&odd) != s_idx {
+                    out.fail(Kind::ImplVsSpec, &format!("{pfx}explanation"), "calculate_explanation: odd aggregate scores not exactly at the specified positions", ctx(&format!("scores: {}\nspec indices: {s_idx}", dots(sc))));
+                }
+            }
+            if verdict != "1" {
+                let sig = if is_exc { sig_exc.to_string() } else { "positions differ from Liang's definition".to_string() };
+                out.fail(Kind::ImplVsSpec, &format!("{pfx}spec"), sig, ctx(&format!("impl indices: {i_idx}\nspec indices: {s_idx}")));
+            }
+            if m_idx != s_idx {
+                out.fail(Kind::ModelVsSpec, &format!("{pfx}spec"), "model indices differ from spec", ctx(&format!("model indices: {m_idx}\nspec indices: {s_idx}")));
+            }
+        }
+}
+
 struct C13 {
     repo: String,
     plain_files: Option<(Vec<String>, Vec<String>)>,
     verif: String,
     plain_data_diff: Vec<String>,
+    plain_text: Option<(String, String)>,
     text_words: Vec<String>,
 }
 
@@ -160,6 +295,7 @@ impl C13 {
             let ps = p.split_whitespace().map(|s| s.to_string()).collect();
             let es = e.lines().map(|l| l.trim()).filter(|l| !l.is_empty()).map(|s| s.to_string()).collect();
             self.plain_files = Some((ps, es));
+            self.plain_text = Some((p.clone(), e.clone()));
             // the shipped data files must be the pinned ones (reported once, with the first plain case)
             let rdir = format!("{}/crates/hyphenate/src", self.repo);
             for f in ["plain_tex_patterns.txt", "plain_tex_exceptions.txt"] {
@@ -473,6 +609,7 @@ impl Property for C13 {
          every exception over <= 3 letters x every one-digit pattern 0..9 over the same letters; \
          random: 1..14 patterns over {a,b,c} (or {a,b,e-acute}) with digits 0..9, lengths 1..40, anchored/nested/overlapping, exception lists, 2..8 words of length 1..40 in mixed case, some malformed patterns and non-letter words (I vs M only); \
          plain: Hyphenator::plain_tex_en_us() on the crate's test words and on words from the repository's markdown files. \
+         histories: one hyphenator through a random sequence of load_patterns / insert_exceptions / insert_exception / query ops over a small alphabet (words of 1..5 letters so that queries, exceptions and `.w.` patterns hit the same words), every earlier word asked again (any letter case) after each mutation, every query compared with model and spec of the state at that point; the same on top of plain_tex_en_us(). \
          One case = one hyphenator and several words. Non-trivial = at least one pattern or exception matched some word of the case (matched patterns > 0); distinct = distinct case string."
             .into()
     }
@@ -499,6 +636,13 @@ impl Property for C13 {
             // the empty word, the empty exception (`~` = empty item), an exception that is only a hyphen
             "h a 1a,.a.,.1.,. ~,-,a- ~,a,aa".into(),
             "h a a1 _ ~".into(),
+            // histories: a word is asked, then an exception for it is declared, then it is asked again
+            "s a Pa1b^00201c,Qabab,Qcab,Xab-ab,Xcab,Qabab,QAbab,Qcab,QABAB,Qababc".into(),
+            "s a Pa1b,Qab,Ea-b^000Ab-a,Qab,Qba,Pb1a,Qba,QAB,Xab,Qab".into(),
+            // C13-b: a pattern `.w.` loaded after the exception for w
+            "s a Xab,Qab,P.a1b.,Qab,QAB".into(),
+            "s a P.a1b.,Qab,Xab,Qab,P.a3b.,Qab".into(),
+            "s a D,Qalgorithm,QAlgorithm,Xal-go-rithm,Qalgorithm,QAlgorithm,Qalgorithms,Etab-le^000A,Qtable".into(),
             // only `-` is markup in an exception entry
             "h a 1b a.b,b=a,a1b ab,ba".into(),
         ];
@@ -581,6 +725,31 @@ impl Property for C13 {
         for _ in 0..n_rand {
             v.push(Self::gen_random(&mut r));
         }
+        // 2b. histories
+        let n_seq = if ctx.thorough { 60_000 } else { 5_000 };
+        let mut r = rng.fork();
+        for _ in 0..n_seq {
+            v.push(Self::gen_seq(&mut r));
+        }
+        // histories on top of plain TeX's data: hyphenate, declare an exception, hyphenate again
+        let mut r = rng.fork();
+        for _ in 0..(if ctx.thorough { 12 } else { 3 }) {
+            let mut ops: Vec<(char, String)> = vec![('D', String::new())];
+            let ws: Vec<String> = (0..6).map(|_| if !self.text_words.is_empty() && r.chance(1, 2) { r.pick(&self.text_words).clone() } else { r.pick(TEST_WORDS).to_string() }).filter(|w| w.is_ascii()).collect();
+            for w in &ws {
+                ops.push(('Q', w.clone()));
+            }
+            for w in &ws {
+                let letters: String = w.chars().filter(|c| c.is_ascii_alphabetic()).collect::<String>().to_lowercase();
+                if letters.is_empty() {
+                    continue;
+                }
+                ops.push((if r.chance(1, 2) { 'X' } else { 'E' }, Self::hyphenate_randomly(&mut r, &letters)));
+                ops.push(('Q', w.clone()));
+                ops.push(('Q', Self::mix_case(&mut r, w, false)));
+            }
+            v.push(show_ops("a", &ops));
+        }
         // 3. plain TeX patterns on text words
         let n_plain = if ctx.thorough { 60 } else { 8 };
         let mut r = rng.fork();
@@ -597,6 +766,9 @@ impl Property for C13 {
     }
 
     fn run_case(&mut self, case: &str, drv: &mut Driver) -> CaseOutcome {
+        if case.starts_with("s ") {
+            return self.run_seq(case, drv);
+        }
         let mut out = CaseOutcome::default();
         let mut p = parse_case(case);
         if p.plain {
@@ -612,58 +784,75 @@ impl Property for C13 {
                 out.fail(Kind::ImplVsModel, "plain-data", "shipped plain TeX data file differs from hyphen.tex", d);
             }
         }
+        // ---- the texts handed to `load_patterns` / `insert_exceptions` ----
+        // glue: the separators, padding, blank lines and the split into several calls are
+        // derived from the case string (same case = same calls); the driver gets the same texts
+        // and parses them with the model of the text front end (`splitWs`, `exceptionLines`)
+        let mut ptexts: Vec<String> = vec![];
+        let mut etext: Option<String> = None; // None: one `insert_exception` call per entry
+        if p.plain {
+            let (pt, et) = self.plain_text.clone().expect("plain texts");
+            ptexts.push(pt);
+            etext = Some(et);
+        } else {
+            let mut g = Rng::new(fxhash(case));
+            let ws = [" ", "\n", "\t", "  ", " \n ", "\r\n", "\u{c}", "\u{a0}", "\u{2003}", "\u{85}\u{3000}"];
+            let cut = if p.pats.len() > 1 && g.chance(1, 3) { 1 + g.below(p.pats.len() as u64 - 1) as usize } else { p.pats.len() };
+            for part in [&p.pats[..cut], &p.pats[cut..]] {
+                let mut text = String::new();
+                if g.chance(1, 4) {
+                    text.push_str(*g.pick(&ws));
+                }
+                for (i, q) in part.iter().enumerate() {
+                    if i > 0 {
+                        text.push_str(if g.chance(2, 3) { " " } else { *g.pick(&ws) });
+                    }
+                    text.push_str(q);
+                }
+                if g.chance(1, 4) {
+                    text.push_str(*g.pick(&ws));
+                }
+                if !part.is_empty() || g.chance(1, 2) {
+                    ptexts.push(text);
+                }
+            }
+            if !g.chance(1, 4) {
+                let mut text = String::new();
+                for e in &p.excs {
+                    if g.chance(1, 6) {
+                        text.push_str(*g.pick(&["\n", "  \n", "\t\n", "\r\n", "\u{a0}\n"]));
+                    }
+                    if g.chance(1, 4) {
+                        text.push_str(*g.pick(&[" ", "\t", "  ", "\u{2003}"]));
+                    }
+                    text.push_str(e);
+                    if g.chance(1, 4) {
+                        text.push_str(*g.pick(&[" ", "\t", "  ", "\u{a0}"]));
+                    }
+                    text.push_str(if g.chance(1, 6) { "\r\n" } else { "\n" });
+                }
+                if g.chance(1, 2) && text.ends_with('\n') {
+                    text.pop();
+                }
+                etext = Some(text);
+            }
+        }
         // ---- I: the real code ----
         let built = caught(|| {
             if p.plain {
                 Hyphenator::plain_tex_en_us()
             } else {
-                // glue: the separators, padding, blank lines and the split into several calls are
-                // derived from the case string (same case = same calls)
-                let mut g = Rng::new(fxhash(case));
                 let mut h: Hyphenator = Default::default();
-                let ws = [" ", "\n", "\t", "  ", " \n ", "\r\n", "\u{c}"];
-                let cut = if p.pats.len() > 1 && g.chance(1, 3) { 1 + g.below(p.pats.len() as u64 - 1) as usize } else { p.pats.len() };
-                for part in [&p.pats[..cut], &p.pats[cut..]] {
-                    let mut text = String::new();
-                    if g.chance(1, 4) {
-                        text.push_str(*g.pick(&ws));
-                    }
-                    for (i, q) in part.iter().enumerate() {
-                        if i > 0 {
-                            text.push_str(if g.chance(2, 3) { " " } else { *g.pick(&ws) });
-                        }
-                        text.push_str(q);
-                    }
-                    if g.chance(1, 4) {
-                        text.push_str(*g.pick(&ws));
-                    }
-                    if !part.is_empty() || g.chance(1, 2) {
-                        h.load_patterns(&text);
-                    }
+                for t in &ptexts {
+                    h.load_patterns(t);
                 }
-                if g.chance(1, 4) {
-                    for e in &p.excs {
-                        h.insert_exception(e);
-                    }
-                } else {
-                    let mut text = String::new();
-                    for e in &p.excs {
-                        if g.chance(1, 6) {
-                            text.push_str(*g.pick(&["\n", "  \n", "\t\n", "\r\n"]));
+                match &etext {
+                    None => {
+                        for e in &p.excs {
+                            h.insert_exception(e);
                         }
-                        if g.chance(1, 4) {
-                            text.push_str(*g.pick(&[" ", "\t", "  "]));
-                        }
-                        text.push_str(e);
-                        if g.chance(1, 4) {
-                            text.push_str(*g.pick(&[" ", "\t", "  "]));
-                        }
-                        text.push_str(if g.chance(1, 6) { "\r\n" } else { "\n" });
                     }
-                    if g.chance(1, 2) && text.ends_with('\n') {
-                        text.pop();
-                    }
-                    h.insert_exceptions(&text);
+                    Some(t) => h.insert_exceptions(t),
                 }
                 h
             }
@@ -684,10 +873,30 @@ impl Property for C13 {
             })
             .collect();
         // ---- M and S: Lean ----
-        let req = format!("h {} {} {} {} {}", p.lc, unitems(&p.pats), unitems(&p.excs), unitems(&p.words), impl_field.join(","));
+        let req = format!(
+            "h {} t {} {} {} {} {}",
+            p.lc,
+            unitems(&ptexts),
+            if etext.is_some() { "t" } else { "l" },
+            match &etext {
+                Some(t) => unitems(std::slice::from_ref(t)),
+                None => unitems(&p.excs),
+            },
+            unitems(&p.words),
+            impl_field.join(",")
+        );
         let reply = drv.ask(&req);
         let Some((head, per)) = reply.split_once(" | ") else { panic!("driver reply malformed: {reply} (request {})", &req[..req.len().min(300)]) };
+        let is_table = head.ends_with(" plain=1");
+        let head = head.trim_end_matches(" plain=1");
         let in_quantifier = head == "wf=1 dup=0";
+        if p.plain && !is_table {
+            // `plain_tex_spec` is about Tables/C13Plain.lean: the pinned data must be that table
+            out.fail(Kind::ImplVsModel, "plain-data", "pinned plain TeX data differs from the Lean table Tables/C13Plain.lean", "regenerate the table from harness/corpus/C13/*.txt".to_string());
+        }
+        if p.plain {
+            out.tag("set:plain-tex=Lean-table");
+        }
         out.tag(if p.plain { "set:plain-tex".to_string() } else { format!("set:{}", head.replace(' ', ",")) });
         out.tag(format!("lc:{}", if p.lc == "t" { "table" } else { "ascii" }));
         let hi_digit = p.pats.iter().any(|s| s.chars().any(|c| ('7'..='9').contains(&c)));
@@ -696,139 +905,17 @@ impl Property for C13 {
         }
         let per: Vec<&str> = per.split(';').collect();
         assert_eq!(per.len(), p.words.len(), "driver reply has wrong number of words: {reply}");
+        let desc = format!("lc: {}\npatterns: {}\nexceptions: {}", p.lc, if p.plain { "plain TeX".into() } else { unitems(&p.pats) }, if p.plain { "plain TeX".into() } else { unitems(&p.excs) });
         for ((w, run), m) in p.words.iter().zip(&runs).zip(&per) {
-            let f: Vec<&str> = m.split(':').collect();
-            assert_eq!(f.len(), 5, "per-word reply malformed: {m}");
-            let (m_scores, m_idx, s_idx, verdict, is_exc) = (f[0], f[1], f[2], f[3], f[4] == "x");
-            if run.matched > 0 {
-                out.nontrivial = true;
-            }
-            out.tag(match run.matched {
-                0 => "matched:0",
-                1 => "matched:1",
-                2..=4 => "matched:2-4",
-                _ => "matched:5+",
-            });
-            let n = w.chars().count();
-            out.tag(match n {
-                0..=1 => "word:len<=1",
-                2..=5 => "word:len2-5",
-                6..=16 => "word:len6-16",
-                17..=32 => "word:len17-32",
-                _ => "word:len33+",
-            });
-            if w.chars().any(|c| c.is_uppercase()) && w.chars().any(|c| c.is_lowercase()) {
-                out.tag("word:mixed-case");
-            } else if w.chars().any(|c| c.is_uppercase()) {
-                out.tag("word:upper-case");
-            }
-            if !w.is_ascii() {
-                out.tag("word:multi-byte");
-            }
-            if verdict == "-" {
-                out.tag("word:non-letter(outside-quantifier)");
-            }
-            if is_exc {
-                out.tag(if hi_digit { "word:listed-exception+pattern-digit-7..9" } else { "word:listed-exception" });
-            }
-            let sig_exc = "listed exception not returned as listed";
-            let ctx = |what: &str| format!("{what}\nword: {w}\nlc: {}\npatterns: {}\nexceptions: {}", p.lc, if p.plain { "plain TeX".into() } else { unitems(&p.pats) }, if p.plain { "plain TeX".into() } else { unitems(&p.excs) });
-            // panics
-            let idx = match &run.indices {
-                Ok(v) => v,
-                Err(e) => {
-                    out.fail(Kind::ImplPanic, "indices", format!("panic {}", strip_msg(e)), ctx(&format!("calculate_indices panicked: {e}")));
-                    if m_idx != "P" {
-                        out.fail(Kind::ImplVsModel, "indices", "impl panics, model does not", ctx(&format!("model indices: {m_idx}")));
-                    }
-                    continue;
-                }
-            };
-            if m_idx == "P" {
-                out.fail(Kind::ImplVsModel, "indices", "model panics, impl does not", ctx(&format!("impl indices: {}", dots(idx))));
-                continue;
-            }
-            if !idx.is_empty() {
-                out.tag("result:some-hyphen");
-            } else {
-                out.tag("result:no-hyphen");
-            }
-            // I vs M: indices and the full aggregate score vector
-            let i_idx = dots(idx);
-            if i_idx != m_idx {
-                let sig = if is_exc { sig_exc.to_string() } else { "indices differ".to_string() };
-                out.fail(Kind::ImplVsModel, "indices", sig, ctx(&format!("impl indices: {i_idx}\nmodel indices: {m_idx}\nmodel scores: {m_scores}")));
-            }
-            match &run.scores {
-                Ok(s) => {
-                    if let Some(mx) = s.iter().max() {
-                        out.tag(format!("score-max:{}", mx));
-                    }
-                    if dots(s) != m_scores {
-                        out.fail(Kind::ImplVsModel, "scores", "aggregate scores differ", ctx(&format!("impl scores: {}\nmodel scores: {m_scores}", dots(s))));
-                    }
-                    let odd: Vec<usize> = s.iter().enumerate().filter(|(_, x)| *x % 2 != 0).map(|(i, _)| i).collect();
-                    if &odd != idx {
-                        out.fail(Kind::ImplVsModel, "scores", "calculate_explanation and calculate_indices disagree", ctx(&format!("scores: {}\nindices: {i_idx}", dots(s))));
-                    }
-                }
-                Err(e) => out.fail(Kind::ImplPanic, "scores", format!("panic {}", strip_msg(e)), ctx(&format!("calculate_explanation panicked: {e}"))),
-            }
-            // glue: hypthenate inserts `-` exactly at the indices
-            match &run.hyphenated {
-                Ok(hs) => {
-                    let mut want = String::new();
-                    for (i, c) in w.chars().enumerate() {
-                        if idx.contains(&i) {
-                            want.push('-');
-                        }
-                        want.push(c);
-                    }
-                    if *hs != want {
-                        out.fail(Kind::ImplVsModel, "hypthenate", "hypthenate string disagrees with calculate_indices", ctx(&format!("hypthenate: {hs}\nfrom indices: {want}")));
-                    }
-                }
-                Err(e) => out.fail(Kind::ImplPanic, "hypthenate", format!("panic {}", strip_msg(e)), ctx(&format!("hypthenate panicked: {e}"))),
-            }
-            // I vs S and M vs S (inside the quantifier)
-            if in_quantifier && verdict != "-" {
-                // the two other public views of the same positions: the string `hypthenate` builds
-                // (a word of letters contains no `-` of its own) and the odd entries of
-                // `calculate_explanation().aggregate_scores`
-                if let Ok(hs) = &run.hyphenated {
-                    let mut pos = vec![];
-                    let mut i = 0usize;
-                    for c in hs.chars() {
-                        if c == '-' {
-                            pos.push(i);
-                        } else {
-                            i += 1;
-                        }
-                    }
-                    let letters: String = hs.chars().filter(|c| *c != '-').collect();
-                    if dots(&pos) != s_idx || letters != *w {
-                        out.fail(Kind::ImplVsSpec, "hypthenate", "hypthenate: hyphens not exactly at the specified positions", ctx(&format!("hypthenate: {hs}\nspec indices: {s_idx}")));
-                    }
-                }
-                if let Ok(sc) = &run.scores {
-                    let odd: Vec<usize> = sc.iter().enumerate().filter(|(_, x)| *x % 2 != 0).map(|(i, _)| i).collect();
-                    if dots(&odd) != s_idx {
-                        out.fail(Kind::ImplVsSpec, "explanation", "calculate_explanation: odd aggregate scores not exactly at the specified positions", ctx(&format!("scores: {}\nspec indices: {s_idx}", dots(sc))));
-                    }
-                }
-                if verdict != "1" {
-                    let sig = if is_exc { sig_exc.to_string() } else { "positions differ from Liang's definition".to_string() };
-                    out.fail(Kind::ImplVsSpec, "spec", sig, ctx(&format!("impl indices: {i_idx}\nspec indices: {s_idx}")));
-                }
-                if m_idx != s_idx {
-                    out.fail(Kind::ModelVsSpec, "spec", "model indices differ from spec", ctx(&format!("model indices: {m_idx}\nspec indices: {s_idx}")));
-                }
-            }
+            check_word(&mut out, w, run, m, in_quantifier, hi_digit, &desc, "", false);
         }
         out
     }
 
     fn shrink(&self, case: &str) -> Vec<String> {
+        if case.starts_with("s ") {
+            return Self::shrink_seq(case);
+        }
         let p = parse_case(case);
         let mut c = vec![];
         let mk = |pats: Vec<String>, excs: Vec<String>, words: Vec<String>| show_case(&Parsed { plain: p.plain, lc: p.lc.clone(), pats, excs, words });
@@ -879,6 +966,249 @@ impl Property for C13 {
             }
         }
         c
+    }
+}
+
+// ------------------------------------------------------------------------------------------
+// Histories: `s <lc> <ops>` — one hyphenator, any sequence of `P<text>` (load_patterns),
+// `E<text>` (insert_exceptions), `X<entry>` (insert_exception), `Q<word>` (query) and, as the first
+// op only, `D` (start from `Hyphenator::plain_tex_en_us()`). Every query is compared with the
+// model and the specification of the state at that point.
+// ------------------------------------------------------------------------------------------
+
+fn parse_ops(s: &str) -> Vec<(char, String)> {
+    if s == "_" {
+        return vec![];
+    }
+    s.split(',')
+        .map(|it| {
+            let mut cs = it.chars();
+            let c = cs.next().expect("empty op");
+            let rest: String = cs.collect();
+            (c, if rest == "~" { String::new() } else { unesc(&rest) })
+        })
+        .collect()
+}
+fn show_ops(lc: &str, ops: &[(char, String)]) -> String {
+    let body: Vec<String> = ops.iter().map(|(c, t)| format!("{c}{}", if t.is_empty() && *c != 'D' { "~".to_string() } else { esc(t) })).collect();
+    format!("s {lc} {}", if body.is_empty() { "_".to_string() } else { body.join(",") })
+}
+
+impl C13 {
+    fn run_seq(&mut self, case: &str, drv: &mut Driver) -> CaseOutcome {
+        let mut out = CaseOutcome::default();
+        let f: Vec<&str> = case.split(' ').collect();
+        assert_eq!(f.len(), 3, "bad case {case}");
+        let lc = f[1];
+        let ops = parse_ops(f[2]);
+        out.tag("seq:case");
+        out.tag(format!("lc:{}", if lc == "t" { "table" } else { "ascii" }));
+        // ---- I: one real hyphenator through the whole history ----
+        let mut h: Hyphenator = Default::default();
+        let mut runs: Vec<(String, WordRun)> = vec![];
+        let mut mutated_since_query = false;
+        let mut seen_words: std::collections::HashSet<String> = Default::default();
+        for (i, (c, t)) in ops.iter().enumerate() {
+            let r = caught(|| match c {
+                'D' => {
+                    assert_eq!(i, 0, "D must be the first op");
+                    h = Hyphenator::plain_tex_en_us();
+                    None
+                }
+                'P' => {
+                    h.load_patterns(t);
+                    None
+                }
+                'E' => {
+                    h.insert_exceptions(t);
+                    None
+                }
+                'X' => {
+                    h.insert_exception(t);
+                    None
+                }
+                'Q' => Some(if lc == "t" { run_word(&h, &TableLc, t) } else { run_word(&h, &AsciiLowerCaser::default(), t) }),
+                _ => panic!("bad op {c}"),
+            });
+            match r {
+                Err(e) => {
+                    out.fail(Kind::ImplPanic, "seq-build", format!("panic {}", strip_msg(&e)), format!("op {i} ({c}{t}) panicked: {e}"));
+                    return out;
+                }
+                Ok(None) => {
+                    out.tag(format!("seq:op-{c}"));
+                    mutated_since_query = true;
+                }
+                Ok(Some(run)) => {
+                    let key = t.to_lowercase();
+                    if seen_words.contains(&key) && mutated_since_query {
+                        out.tag("seq:requery-after-mutation");
+                    }
+                    seen_words.insert(key);
+                    runs.push((t.clone(), run));
+                }
+            }
+            if *c == 'Q' {
+                // stays true until the next mutation resets nothing: a re-query counts once per word
+            }
+        }
+        let impl_field: Vec<String> = runs
+            .iter()
+            .map(|(_, r)| match &r.indices {
+                Ok(v) => dots(v),
+                Err(_) => "P".into(),
+            })
+            .collect();
+        let req = format!("s {} {} {}", lc, f[2], if impl_field.is_empty() { "-".to_string() } else { impl_field.join(",") });
+        let reply = drv.ask(&req);
+        if runs.is_empty() {
+            return out;
+        }
+        let per: Vec<&str> = reply.split(';').collect();
+        assert_eq!(per.len(), runs.len(), "driver reply has wrong number of queries: {reply} (request {})", &req[..req.len().min(300)]);
+        let desc = format!("history: {}", f[2]);
+        for ((w, run), m) in runs.iter().zip(&per) {
+            let (flags, rest) = m.split_once(':').unwrap_or_else(|| panic!("per-query reply malformed: {m}"));
+            let in_quantifier = flags == "10";
+            let b_flag = rest.rsplit(':').next() == Some("b");
+            if b_flag {
+                out.tag("seq:query-with-exception-and-.w.-pattern");
+            }
+            let n0 = out.failures.len();
+            check_word(&mut out, w, run, rest, in_quantifier, false, &desc, "seq-", b_flag);
+            if b_flag {
+                // shape of C13-b and the pre-fix model reproduces the real answer: every
+                // deviation on this query is that one defect
+                for fl in out.failures[n0..].iter_mut() {
+                    if fl.kind != Kind::ImplPanic {
+                        fl.signature = "C13-b: a pattern .w. loaded after the exception for w replaces it".into();
+                    }
+                }
+            }
+        }
+        out
+    }
+
+    fn shrink_seq(case: &str) -> Vec<String> {
+        let f: Vec<&str> = case.split(' ').collect();
+        let ops = parse_ops(f[2]);
+        let mut c = vec![];
+        if ops.len() > 1 {
+            c.push(show_ops(f[1], &ops[..ops.len() / 2]));
+            c.push(show_ops(f[1], &ops[ops.len() / 2..]));
+            for i in 0..ops.len() {
+                if ops[i].0 == 'D' {
+                    continue;
+                }
+                let mut o = ops.clone();
+                o.remove(i);
+                c.push(show_ops(f[1], &o));
+            }
+        }
+        // shorten the payload of one op (drop one whitespace-separated token / one char)
+        for i in 0..ops.len() {
+            let (k, t) = &ops[i];
+            if *k == 'P' || *k == 'E' {
+                let toks: Vec<&str> = t.split_whitespace().collect();
+                if toks.len() > 1 {
+                    for j in 0..toks.len() {
+                        let mut o = ops.clone();
+                        o[i].1 = toks.iter().enumerate().filter(|(x, _)| *x != j).map(|(_, s)| *s).collect::<Vec<_>>().join(" ");
+                        c.push(show_ops(f[1], &o));
+                    }
+                }
+            }
+            let cs: Vec<char> = t.chars().collect();
+            if cs.len() > 1 && cs.len() <= 10 {
+                for j in 0..cs.len() {
+                    let mut o = ops.clone();
+                    o[i].1 = cs.iter().enumerate().filter(|(x, _)| *x != j).map(|(_, ch)| *ch).collect();
+                    c.push(show_ops(f[1], &o));
+                }
+            }
+        }
+        c
+    }
+
+    /// A random history over a small alphabet: short words so that queries, exceptions and `.w.`
+    /// patterns keep hitting the same words; after each mutation earlier words are asked again,
+    /// in another letter case.
+    fn gen_seq(r: &mut Rng) -> String {
+        let table = r.chance(1, 5);
+        let ab: Vec<char> = if r.chance(1, 2) { vec!['a', 'b'] } else { vec!['a', 'b', 'c'] };
+        let mut ops: Vec<(char, String)> = vec![];
+        let mut words: Vec<String> = vec![];
+        let pat_text = |r: &mut Rng, words: &[String]| -> String {
+            let n = 1 + r.below(3) as usize;
+            let mut ps = vec![];
+            for _ in 0..n {
+                if !words.is_empty() && r.chance(1, 4) {
+                    // a pattern for exactly one known word: `.w.` with digits
+                    let w = r.pick(words).clone();
+                    let mut s = String::from(".");
+                    for (i, c) in w.chars().enumerate() {
+                        if i > 0 && r.chance(1, 2) {
+                            s.push((b'0' + r.below(10) as u8) as char);
+                        }
+                        s.push(c);
+                    }
+                    s.push('.');
+                    ps.push(s);
+                } else {
+                    ps.push(Self::gen_pattern(r, &ab, false));
+                }
+            }
+            let sep = *r.pick(&[" ", "\n", "  ", "\t"]);
+            ps.join(sep)
+        };
+        if r.chance(4, 5) {
+            ops.push(('P', pat_text(r, &words)));
+        }
+        let n_ops = 4 + r.below(10) as usize;
+        for _ in 0..n_ops {
+            let k = r.below(10);
+            let mutated = match k {
+                0..=3 => {
+                    // a query: a new short word or an earlier one
+                    let w = if !words.is_empty() && r.chance(1, 2) { r.pick(&words).clone() } else { Self::gen_letters_r(r, 1, 5, &ab) };
+                    if !words.contains(&w) {
+                        words.push(w.clone());
+                    }
+                    ops.push(('Q', Self::mix_case(r, &w, table)));
+                    false
+                }
+                4 | 5 => {
+                    let w = if !words.is_empty() && r.chance(3, 4) { r.pick(&words).clone() } else { Self::gen_letters_r(r, 1, 5, &ab) };
+                    ops.push(('X', Self::hyphenate_randomly(r, &w)));
+                    true
+                }
+                6 => {
+                    let n = 1 + r.below(2) as usize;
+                    let mut t = String::new();
+                    for _ in 0..n {
+                        let w = if !words.is_empty() && r.chance(3, 4) { r.pick(&words).clone() } else { Self::gen_letters_r(r, 1, 5, &ab) };
+                        t.push_str(&Self::hyphenate_randomly(r, &w));
+                        t.push('\n');
+                    }
+                    ops.push(('E', t));
+                    true
+                }
+                _ => {
+                    ops.push(('P', pat_text(r, &words)));
+                    true
+                }
+            };
+            if mutated {
+                // ask earlier words again (all of them half of the time), in any letter case
+                let all = r.chance(1, 2);
+                for w in words.clone() {
+                    if all || r.chance(1, 2) {
+                        ops.push(('Q', Self::mix_case(r, &w, table)));
+                    }
+                }
+            }
+        }
+        show_ops(if table { "t" } else { "a" }, &ops)
     }
 }
 
@@ -953,5 +1283,5 @@ impl C13 {
 }
 
 fn main() {
-    run(C13 { repo: String::new(), plain_files: None, text_words: vec![], verif: String::new(), plain_data_diff: vec![] });
+    run(C13 { repo: String::new(), plain_files: None, text_words: vec![], verif: String::new(), plain_data_diff: vec![], plain_text: None });
 }
